@@ -42,6 +42,3 @@ pub fn short(h: &Hash) -> String {
     h.to_hex()[..6].to_string()
 }
 
-pub fn short_key(k: &VerifyingKey) -> String {
-    k.to_hex()[..6].to_string()
-}
